@@ -134,7 +134,12 @@ class WorldAdapter:
                     env.killer = None
                     if world.get_components(victim):
                         world.delete_entity(victim, immediate=immediate)
-                if env.reentrant and env.reentrant[1] == self.name and cb == 'on_add':
+                if env.reentrant and env.reentrant[1] == self.name and cb == 'on_remove' and env.reentrant[0] == 'disable_on_remove':
+                    env.reentrant = None
+                    env.log.append((cb, self.name, modelid(entity)) if world is env.w else (cb, self.name, modelid(entity), 'WRONGWORLD'))
+                    world.dispatch_enabled = False
+                    return
+                if env.reentrant and env.reentrant[1] == self.name and cb == 'on_add' and env.reentrant[0] != 'disable_on_remove':
                     what = env.reentrant[0]
                     env.reentrant = None
                     env.log.append((cb, self.name, modelid(entity)) if world is env.w else (cb, self.name, modelid(entity), 'WRONGWORLD'))
@@ -264,6 +269,10 @@ class WorldAdapter:
             elif name == 'AddSelfRemoving':
                 env.reentrant = ('selfremove', args[1])
                 w.add_component(pyid(args[0]), env.comps[args[1]])
+            elif name == 'RemoveDisabling':
+                env.reentrant = ('disable_on_remove', args[1])
+                r = w.remove_component(pyid(args[0]), type(env.comps[args[1]]))
+                kind[:] = ['none', 0, '-'] if r is None else ['comp', 0, getattr(r, 'name', '?')]
             elif name == 'CreateDisabling':
                 env.reentrant = ('disable', args[1])
                 r = w.create_entity(env.comps[args[1]], env.comps[args[2]], entity_id=pyid(args[0]))
@@ -428,6 +437,11 @@ class WorldAdapter:
                 hs.add(p)
         obs['is_handler'] = frozenset(hs)
         obs['self_handler'] = w.is_handler(w)
+        if self.weak:
+            import gc
+            gc.collect()
+            held = {getattr(c, 'name', '?') for e in self.all_ids for c in w.get_components(pyid(e))}
+            obs['alive_detached'] = frozenset(n for n, o in env.comps.items() if n not in held)
         if self.controllers:
             obs['ctrl_knows'] = {c: (modelid(o.entity) if o.entity is not None else None, o.world is w)
                                  for c, o in env.comps.items()}
@@ -484,6 +498,9 @@ class WorldAdapter:
         exp['enabled'] = post['enabled']
         exp['is_handler'] = post['reg']
         if self.weak:
+            # nothing keeps a detached component alive, except a postponed callback that still has to reach it
+            pending = frozenset(it[1] for it in post['queue'])
+            exp['alive_detached'] = lambda o, pending=pending: o <= pending
             # a component the world no longer holds is gone, whatever registration a raising callback left behind
             attached = {c for row in rows.values() for c in row.values()}
             exp['is_handler'] = frozenset(x for x in post['reg'] if x in attached or x in K['Procs'])
